@@ -107,6 +107,12 @@ pub const TARGETS: &[Tgt] = &[Tgt::New, Tgt::One, Tgt::SameLen, Tgt::Big, Tgt::T
 
 #[derive(Clone, Copy, Debug, PartialEq, Eq, Hash, Serialize, Deserialize)]
 pub enum MapOp {
+    /// consume the map by value through for_each (fold) - the map is empty afterwards
+    IntoIterForEach,
+    /// drain through for_each after one next()
+    DrainForEach,
+    /// extract_if(even ids): one next(), then count() (fold)
+    ExtractIfEvenCount,
     RawEntry(u8, crate::mapentry::RBuild, crate::mapentry::RAct),
     RustcEntry(u8, crate::mapentry::RuAct),
     CloneDrop,
@@ -715,6 +721,55 @@ impl<K: KeyT, V: ValT> MapHarness<K, V> {
             }
             MapOp::RawEntry(id, b, act) => crate::mapentry::raw_entry_op(sut, id, b, act, c)?,
             MapOp::RustcEntry(id, act) => crate::mapentry::rustc_entry_op(sut, id, act, c)?,
+            MapOp::IntoIterForEach => {
+                let old = std::mem::take(&mut sut.map);
+                let mut got: Vec<ModelEntry> = Vec::new();
+                let mut it = old.into_iter();
+                if let Some((k, v)) = it.next() {
+                    got.push((k.id(), k.tok(), v.tok()));
+                }
+                it.for_each(|(k, v)| {
+                    env::tick(Class::Closure);
+                    got.push((k.id(), k.tok(), v.tok()));
+                });
+                got.sort_unstable();
+                let mut want = std::mem::take(&mut sut.model);
+                want.sort_unstable();
+                chk!(c, got == want, "into_iter().for_each visited {:?}, reference {:?}", got, want);
+            }
+            MapOp::DrainForEach => {
+                let mut got: Vec<ModelEntry> = Vec::new();
+                {
+                    let mut d = sut.map.drain();
+                    if let Some((k, v)) = d.next() {
+                        got.push((k.id(), k.tok(), v.tok()));
+                    }
+                    d.for_each(|(k, v)| {
+                        env::tick(Class::Closure);
+                        got.push((k.id(), k.tok(), v.tok()));
+                    });
+                }
+                got.sort_unstable();
+                let mut want = std::mem::take(&mut sut.model);
+                want.sort_unstable();
+                chk!(c, got == want, "drain(): next() then for_each visited {:?}, reference {:?}", got, want);
+            }
+            MapOp::ExtractIfEvenCount => {
+                let evens = sut.model.iter().filter(|e| e.0 % 2 == 0).count();
+                let mut calls = 0usize;
+                let n = {
+                    let mut it = sut.map.extract_if(|k, _| {
+                        env::tick(Class::Closure);
+                        calls += 1;
+                        k.id() % 2 == 0
+                    });
+                    let first = it.next().is_some() as usize;
+                    first + it.count()
+                };
+                chk!(c, n == evens, "extract_if(even): next() + count() = {n}, reference {evens}");
+                chk!(c, calls == sut.model.len(), "extract_if(even) called the predicate {calls} times for {} elements", sut.model.len());
+                sut.model.retain(|e| e.0 % 2 != 0);
+            }
             MapOp::Clear => {
                 sut.map.clear();
                 sut.model.clear();
@@ -1236,6 +1291,9 @@ impl<K: KeyT, V: ValT> Harness for MapHarness<K, V> {
             v.push(MapOp::FromIterSelf);
         }
         if a.clone {
+            v.push(MapOp::IntoIterForEach);
+            v.push(MapOp::DrainForEach);
+            v.push(MapOp::ExtractIfEvenCount);
             v.push(MapOp::CloneDrop);
             for &t in TARGETS {
                 v.push(MapOp::CloneInto(t));
